@@ -79,7 +79,7 @@ Reach(D) == ReachFrom(D, {D.output}, {D.output})
 ExpectedGraph(D) ==
     LET R == Reach(D)
         C == [n \in R |-> Contribution(D, n)]
-    IN  [nodes |-> UNION {C[n].nodes : n \in R},
+    IN  [nodes |-> R \cup UNION {C[n].nodes : n \in R},        \* one node per reachable declared class (also when it is alone)
          edges |-> UNION {C[n].edges : n \in R},
          attrs |-> UNION {C[n].attrs : n \in R},
          map   |-> {D.input} \cup UNION {C[n].map : n \in R}]
@@ -89,6 +89,7 @@ ErrorOf(defect) ==
       [] defect = "nobase"           -> "IncorrectBaseClass"
       [] defect = "noprocess"        -> "RunMethodExpectedError"
       [] defect = "unannotated_some" -> "UndefinedParamAnnotation"
+      [] defect = "unannotated_kwargs" -> "UndefinedParamAnnotation"       \* a plain parameter NAMED kwargs is a parameter
       [] defect = "unannotated_default" -> "UndefinedParamAnnotation"      \* a default value does not replace the annotation
       [] defect = "unannotated_all"  -> "UndefinedAnnotation"
       [] defect = "generic1"         -> "NonRedefinedGenericTypeError"
@@ -100,7 +101,7 @@ ErrorOf(defect) ==
 
 (* a traversal defect is detected when the node is visited; a recurrent defect when the node is the
    destination / start of a recurrent mark of some visited node *)
-TraversalDefects == {"notclass", "nobase", "noprocess", "unannotated_some", "unannotated_default", "unannotated_all", "generic1", "generic2",
+TraversalDefects == {"notclass", "nobase", "noprocess", "unannotated_some", "unannotated_kwargs", "unannotated_default", "unannotated_all", "generic1", "generic2",
                      "generic_partial"}
 ExpectedVerdict(D) ==
     LET R == Reach(D)
